@@ -130,6 +130,36 @@ func (p *Prog) EffectSites(entry *ssa.Function, id string, isEffect func(ssa.Ins
 	return out
 }
 
+// EffectSitesBelow: the effect sites of the function env is about, keeping env's calling context.
+func (p *Prog) EffectSitesBelow(env *Env, id string, isEffect func(ssa.Instruction) (string, bool)) []EffectSite {
+	reach := p.reachesEffect(id, isEffect)
+	var out []EffectSite
+	var walk func(e *Env, stack map[*ssa.Function]bool)
+	walk = func(e *Env, stack map[*ssa.Function]bool) {
+		if stack[e.Fn] || e.depth > 9 {
+			return
+		}
+		stack[e.Fn] = true
+		defer delete(stack, e.Fn)
+		for _, b := range e.Fn.Blocks {
+			for _, in := range b.Instrs {
+				if name, ok := isEffect(in); ok {
+					out = append(out, EffectSite{e, in, name})
+				}
+				if c, ok := in.(ssa.CallInstruction); ok {
+					for _, callee := range p.Callees(c) {
+						if reach[callee] && len(callee.Blocks) > 0 {
+							walk(e.Sub(c, callee), stack)
+						}
+					}
+				}
+			}
+		}
+	}
+	walk(env, map[*ssa.Function]bool{})
+	return out
+}
+
 // CutAt: within e.Fn, the edges carrying a fact accepted by pred (plus edges infeasible under assume) cut entry -> at.
 // Returns the accepted facts that took part.
 func (e *Env) CutAt(at ssa.Instruction, pred func(Fact) bool, assume []Fact) ([]Fact, bool) {
